@@ -340,11 +340,6 @@ def control_run(prop, tier, seed, timeout):
         return None
 
 
-# an open finding filed under one property whose state another property's harness also reaches (the harness tags the
-# failure with the finding's id only when the finding's own `match` predicate holds on what it observed)
-FINDING_ALSO_MET_BY = {"F1": ("C09",)}
-
-
 def load_known():
     p = os.path.join(VERIF, "known_findings.json")
     if not os.path.exists(p):
@@ -511,7 +506,7 @@ def check(prop, tier, seed, replay=None):
                      exhaustive=False, extra=dict(control_run=ctrl))
 
     known = load_known()
-    open_ids = {k["id"]: k for k in known.get("open", []) if k["property"] == prop or prop in FINDING_ALSO_MET_BY.get(k["id"], ())}
+    open_ids = {k["id"]: k for k in known.get("open", []) if k["property"] == prop}
     failures = h.get("failures", [])
     known_hits, new_fail = {}, []
     for f in failures:
